@@ -1,7 +1,125 @@
-use crate::State;
+// C05: EXH / EXD decoding, directly and through a GameData handle.
 use crate::util::*;
-use serde_json::Value;
+use crate::{State, guarded};
+use physis::common::Language;
+use physis::exd::{ColumnData, EXD, ExcelRow};
+use physis::exh::EXH;
+use serde_json::{Value, json};
 
-pub fn run(_st: &mut State, op: &str, _cmd: &Value) -> Value {
-    toolerror(&format!("unknown op {op}"))
+fn cell(c: &ColumnData) -> Value {
+    match c {
+        ColumnData::String(s) => json!({"t": "str", "b": s.chars().map(|c| c as u32).collect::<Vec<u32>>()}),
+        ColumnData::Bool(b) => json!({"t": "bool", "b": [*b as u8]}),
+        ColumnData::Int8(v) => json!({"t": "i8", "b": bytes(&v.to_be_bytes())}),
+        ColumnData::UInt8(v) => json!({"t": "u8", "b": bytes(&v.to_be_bytes())}),
+        ColumnData::Int16(v) => json!({"t": "i16", "b": bytes(&v.to_be_bytes())}),
+        ColumnData::UInt16(v) => json!({"t": "u16", "b": bytes(&v.to_be_bytes())}),
+        ColumnData::Int32(v) => json!({"t": "i32", "b": bytes(&v.to_be_bytes())}),
+        ColumnData::UInt32(v) => json!({"t": "u32", "b": bytes(&v.to_be_bytes())}),
+        ColumnData::Float32(v) => json!({"t": "f32", "b": bytes(&v.to_bits().to_be_bytes())}),
+        ColumnData::Int64(v) => json!({"t": "i64", "b": bytes(&v.to_be_bytes())}),
+        ColumnData::UInt64(v) => json!({"t": "u64", "b": bytes(&v.to_be_bytes())}),
+    }
+}
+
+fn rows(r: &[ExcelRow]) -> Value {
+    Value::Array(r.iter().map(|x| Value::Array(x.data.iter().map(cell).collect())).collect())
+}
+
+pub fn project_exh(h: &EXH) -> Value {
+    json!({
+        "data_offset": h.header.data_offset,
+        "row_count": h.header.row_count,
+        "columns": h.column_definitions.iter().map(|c| json!([c.data_type.clone() as u16, c.offset])).collect::<Vec<Value>>(),
+        "pages": h.pages.iter().map(|p| json!([p.start_id, p.row_count])).collect::<Vec<Value>>(),
+        "nlangs": h.languages.len(),
+        "lang1": h.languages.first().map(|l| *l as i64).unwrap_or(-1),
+    })
+}
+
+fn language(i: i64) -> Language {
+    match i {
+        1 => Language::Japanese,
+        2 => Language::English,
+        3 => Language::German,
+        4 => Language::French,
+        5 => Language::ChineseSimplified,
+        6 => Language::ChineseTraditional,
+        7 => Language::Korean,
+        _ => Language::None,
+    }
+}
+
+fn read_ids(exd: &EXD, exh: &EXH, ids: &Value) -> Value {
+    let mut out = vec![];
+    for id in ids.as_array().cloned().unwrap_or_default() {
+        let id = id.as_u64().unwrap_or(0) as u32;
+        out.push(json!({"id": id, "res": guarded(|| value(opt(exd.read_row(exh, id), |r| rows(&r))))}));
+    }
+    Value::Array(out)
+}
+
+pub fn run(st: &mut State, op: &str, cmd: &Value) -> Value {
+    match op {
+        "excel.read" => {
+            let (hb, db) = (get_bytes(&cmd["exh"]), get_bytes(&cmd["exd"]));
+            let mut exh = None;
+            let hres = guarded(|| {
+                let h = EXH::from_existing(&hb);
+                let v = opt(h.as_ref(), project_exh);
+                exh = h;
+                value(v)
+            });
+            let Some(exh) = exh else {
+                return json!({"exh": hres, "rows": []});
+            };
+            let mut exd = None;
+            let dres = guarded(|| {
+                let d = EXD::from_existing(&db);
+                let ok = d.is_some();
+                exd = d;
+                value(json!(ok))
+            });
+            let rows = match &exd {
+                Some(d) => read_ids(d, &exh, &cmd["ids"]),
+                None => json!([]),
+            };
+            json!({"exh": hres, "exd": dres, "rows": rows})
+        }
+        "excel.sheet" => {
+            let h = geti(cmd, "h");
+            let Some(g) = st.archive.handles.get_mut(&h) else {
+                return json!({"outcome": "nohandle"});
+            };
+            let name = get_str(&cmd["name"]);
+            let names = guarded(|| {
+                value(opt(g.get_all_sheet_names(), |n| {
+                    Value::Array(n.iter().map(|s| sbytes(s)).collect())
+                }))
+            });
+            let mut exh = None;
+            let header = guarded(|| {
+                let hd = g.read_excel_sheet_header(&name);
+                let v = opt(hd.as_ref(), project_exh);
+                exh = hd;
+                value(v)
+            });
+            let mut page = json!({"outcome": "skipped"});
+            if let Some(exh) = &exh {
+                let pi = geti(cmd, "page") as usize;
+                if pi < exh.pages.len() {
+                    page = guarded(|| {
+                        let d = g.read_excel_sheet(&name, exh, language(geti(cmd, "lang")), pi);
+                        value(opt(d, |d| read_ids(&d, exh, &cmd["ids"])))
+                    });
+                }
+            }
+            let fname = guarded(|| {
+                let p = physis::exh::ExcelDataPagination { start_id: geti(cmd, "start") as u32, row_count: 0 };
+                value(sbytes(&EXD::calculate_filename(&name, language(geti(cmd, "lang")), &p)))
+            });
+            json!({"names": names, "header": header, "page": page, "fname": fname})
+        }
+        _ => toolerror(&format!("unknown op {op}")),
+    }
 }
